@@ -18,7 +18,7 @@ enum Mode {
 #[derive(Clone, Debug)]
 struct El {
     serial: u64,
-    class: u8,
+    class: u32,
     mode: Mode,
 }
 impl PartialEq for El {
@@ -26,7 +26,7 @@ impl PartialEq for El {
         match (self.mode, o.mode) {
             (Mode::Never, _) | (_, Mode::Never) => false,
             (Mode::Wild, _) | (_, Mode::Wild) => true,
-            (Mode::Near, _) | (_, Mode::Near) => (self.class as i32 - o.class as i32).abs() <= 1,
+            (Mode::Near, _) | (_, Mode::Near) => (self.class as i64 - o.class as i64).abs() <= 1,
             (Mode::Class, Mode::Class) => self.class == o.class,
         }
     }
@@ -38,8 +38,15 @@ enum OpK {
     Fetch,
 }
 
-fn play(hist: &[(OpK, u8, Mode)], r: &mut Report, rp: &dyn Fn() -> Json, stage: &str) {
-    let show = || hist.iter().map(|(o, c, m)| format!("{}({}{})", if matches!(o, OpK::Append) { "append" } else { "fetch_or_append" }, c, match m { Mode::Never => "~nan", Mode::Near => "~near", Mode::Wild => "~any", Mode::Class => "" })).collect::<Vec<_>>().join(" ");
+fn play(hist: &[(OpK, u32, Mode)], r: &mut Report, rp: &dyn Fn() -> Json, stage: &str) {
+    play_opt(hist, r, rp, stage, false)
+}
+
+/// `sparse`: long histories – the lookups of all earlier tokens are compared at every 64th step and at the end
+/// (plus the first, the last and one rotating earlier token at every step) instead of at every step.
+fn play_opt(hist: &[(OpK, u32, Mode)], r: &mut Report, rp: &dyn Fn() -> Json, stage: &str, sparse: bool) {
+    let show_all = |h: &[(OpK, u32, Mode)]| h.iter().map(|(o, c, m)| format!("{}({}{})", if matches!(o, OpK::Append) { "append" } else { "fetch_or_append" }, c, match m { Mode::Never => "~nan", Mode::Near => "~near", Mode::Wild => "~any", Mode::Class => "" })).collect::<Vec<_>>().join(" ");
+    let show = || if hist.len() <= 320 { show_all(hist) } else { format!("{} ...({} more operations)... {}", show_all(&hist[..40]), hist.len() - 240, show_all(&hist[hist.len() - 200..])) };
     let mut st: Storage<El> = Storage::new();
     let mut model: Vec<El> = vec![];
     let mut tokens: Vec<Token<El>> = vec![];
@@ -86,7 +93,11 @@ fn play(hist: &[(OpK, u8, Mode)], r: &mut Report, rp: &dyn Fn() -> Json, stage: 
                 return;
             }
         }
+        let last_step = step + 1 == hist.len();
         for (i, t) in tokens.iter().enumerate() {
+            if sparse && !last_step && step % 64 != 0 && i != 0 && i + 1 != tokens.len() && i != step % tokens.len() {
+                continue;
+            }
             match catch(|| st[*t].serial) {
                 Ok(s) if s == model[i].serial && t.index() as usize == i => {}
                 other => {
@@ -105,13 +116,13 @@ fn play(hist: &[(OpK, u8, Mode)], r: &mut Report, rp: &dyn Fn() -> Json, stage: 
     r.nontrivial(format!("{:x}", crate::util::hash_str(&show()) % (1 << 18)));
 }
 
-fn gen_hist(rng: &mut Rng) -> Vec<(OpK, u8, Mode)> {
+fn gen_hist(rng: &mut Rng) -> Vec<(OpK, u32, Mode)> {
     let n = match rng.below(10) {
         0..=5 => rng.range(1, 20),
         6..=8 => rng.range(20, 80),
         _ => rng.range(80, 200),
     };
-    let classes = rng.range(1, 8) as u8;
+    let classes = rng.range(1, 8) as u32;
     // equality style of this history: 0 exact classes, 1 near (non-transitive), 2 exact + wildcards, 3 mixed
     let style = rng.below(4);
     (0..n)
@@ -125,13 +136,251 @@ fn gen_hist(rng: &mut Rng) -> Vec<(OpK, u8, Mode)> {
                 (3, 3..=6) => Mode::Near,
                 _ => Mode::Class,
             };
-            (op, rng.below(classes as usize) as u8, mode)
+            (op, rng.below(classes as usize) as u32, mode)
         })
         .collect()
 }
 
+
+/// Long histories: a short random prefix over the small classes, then a long run of filler appends (classes far
+/// away from the small ones, spaced so that no equality style relates two fillers unless wanted), then a random
+/// suffix over the small classes that also fetches filler values (first match deep inside the storage).
+fn gen_long(rng: &mut Rng) -> Vec<(OpK, u32, Mode)> {
+    let mut h: Vec<(OpK, u32, Mode)> = gen_hist(rng).into_iter().take(24).collect();
+    let fill = match rng.below(8) {
+        0 => rng.range(250, 262),
+        1 => rng.range(1018, 1032),
+        2 => rng.range(2040, 2056),
+        3 => rng.range(4090, 4102),
+        _ => rng.range(300, 3000),
+    } as u32;
+    let fmode = match rng.below(4) {
+        0 => Mode::Near,
+        _ => Mode::Class,
+    };
+    let step = if rng.chance(1, 4) { 1 } else { 3 };
+    let dup_every = if rng.chance(1, 3) { rng.range(2, 40) as u32 } else { 0 };
+    for i in 0..fill {
+        let c = if dup_every != 0 && i % dup_every == dup_every - 1 { 1000 + (i / 2) * step } else { 1000 + i * step };
+        h.push((OpK::Append, c, if rng.chance(1, 40) { Mode::Never } else { fmode }));
+    }
+    let classes = rng.range(1, 8) as u32;
+    let style = rng.below(4);
+    let tail = rng.range(8, 80);
+    for _ in 0..tail {
+        let op = if rng.chance(1, 3) { OpK::Append } else { OpK::Fetch };
+        let mode = match (style, rng.below(12)) {
+            (_, 0) => Mode::Never,
+            (1, _) => Mode::Near,
+            (2, 2) => Mode::Wild,
+            (3, 3..=6) => Mode::Near,
+            _ => Mode::Class,
+        };
+        let class = match rng.below(6) {
+            0 => 1000 + rng.below(fill as usize * 3 + 3) as u32,
+            1 => 1000 + (fill - 1 - rng.below(std::cmp::min(fill as usize, 4)) as u32) * step,
+            _ => rng.below(classes as usize) as u32,
+        };
+        h.push((op, class, mode));
+    }
+    h
+}
+
+/// Zero-sized elements: a storage of these holds no memory, so histories of billions of appends are reachable.
+#[derive(Clone, Copy, Debug)]
+struct ZNever;
+impl PartialEq for ZNever {
+    fn eq(&self, _: &ZNever) -> bool {
+        false
+    }
+}
+#[derive(Clone, Copy, Debug)]
+struct ZAlways;
+impl PartialEq for ZAlways {
+    fn eq(&self, _: &ZAlways) -> bool {
+        true
+    }
+}
+
+trait CapEl: Clone + PartialEq + Send + 'static {
+    fn make(i: u64) -> Self;
+    fn same(&self, i: u64) -> bool;
+    /// index fetch_or_append(make(i)) must return when the storage holds the values make(0..count)
+    fn first_equal(i: u64, count: u64) -> Option<u64>;
+    const NAME: &'static str;
+}
+impl CapEl for () {
+    fn make(_: u64) {}
+    fn same(&self, _: u64) -> bool {
+        true
+    }
+    fn first_equal(_: u64, count: u64) -> Option<u64> {
+        if count > 0 { Some(0) } else { None }
+    }
+    const NAME: &'static str = "unit";
+}
+impl CapEl for ZNever {
+    fn make(_: u64) -> Self {
+        ZNever
+    }
+    fn same(&self, _: u64) -> bool {
+        true
+    }
+    fn first_equal(_: u64, _: u64) -> Option<u64> {
+        None
+    }
+    const NAME: &'static str = "zst-never-equal";
+}
+impl CapEl for ZAlways {
+    fn make(_: u64) -> Self {
+        ZAlways
+    }
+    fn same(&self, _: u64) -> bool {
+        true
+    }
+    fn first_equal(_: u64, count: u64) -> Option<u64> {
+        if count > 0 { Some(0) } else { None }
+    }
+    const NAME: &'static str = "zst-always-equal";
+}
+impl CapEl for u8 {
+    fn make(i: u64) -> u8 {
+        (i % 251) as u8
+    }
+    fn same(&self, i: u64) -> bool {
+        *self == (i % 251) as u8
+    }
+    fn first_equal(i: u64, count: u64) -> Option<u64> {
+        if i % 251 < count { Some(i % 251) } else { None }
+    }
+    const NAME: &'static str = "u8";
+}
+
+/// Append-dominated history of `limit` operations on one storage; the token of every append is compared with
+/// the running count, tokens kept around every power of two (and the first/last ones) are looked up again at
+/// the end, and fetch_or_append is called around every power of two. An append that would need an index that
+/// `Token::index()` cannot represent can only return a token that was returned before (pigeonhole), so there
+/// any returned token is a violation and a refusal (panic) with the storage left unchanged is the only
+/// conforming outcome.
+fn capacity<T: CapEl>(limit: u64, r: &mut Report, rp: &dyn Fn() -> Json) {
+    let stage = "capacity";
+    let mut st: Storage<T> = Storage::new();
+    let mut count: u64 = 0;
+    let mut kept: Vec<(u64, Token<T>)> = vec![];
+    let mut refused = 0u64;
+    let near_pow2 = |n: u64| -> bool {
+        if n < 64 {
+            return true;
+        }
+        let up = n.next_power_of_two();
+        let down = up >> 1;
+        up - n <= 4 || n - down <= 4
+    };
+    let max_index = u32::MAX as u64;
+    while count + refused < limit {
+        // a chunk of plain appends up to the next point of interest, under one catch_unwind
+        let start = count;
+        let mut end = std::cmp::min(limit - refused, (start | 0xffff) + 1);
+        if end > start + 1 {
+            let up = (start + 1).next_power_of_two();
+            if up > start + 8 && up - 4 < end {
+                end = up - 4;
+            }
+        }
+        let special = near_pow2(start) || start + 8 >= limit;
+        if special {
+            end = start + 1;
+        }
+        let progress = std::cell::Cell::new(start);
+        let bad = std::cell::Cell::new(None::<(u64, u32)>);
+        let res = catch(|| {
+            let mut n = start;
+            while n < end {
+                let t = st.append(T::make(n));
+                if t.index() as u64 != n {
+                    bad.set(Some((n, t.index())));
+                    return None;
+                }
+                n += 1;
+                progress.set(n);
+                if special {
+                    return Some(t);
+                }
+            }
+            None
+        });
+        count = progress.get();
+        if let Some((n, got)) = bad.get() {
+            r.violation(format!("C19:{}:append-index", stage), format!("storage of {} elements: append #{} (0-based) returned token index {}, expected {}{}", T::NAME, n, got, n, if n > max_index { " (not representable: the token repeats an earlier one)" } else { "" }), rp().set("element", T::NAME).set("append", n));
+            return;
+        }
+        match res {
+            Ok(Some(t)) => kept.push((count - 1, t)),
+            Ok(None) => {}
+            Err(p) => {
+                if count > max_index {
+                    // refusal: nothing may have changed
+                    refused += 1;
+                    r.count("refused_appends_beyond_index_range", 1);
+                    if refused > 8 {
+                        break;
+                    }
+                } else {
+                    r.violation(format!("C19:panic:{}", crate::util::panic_key(&p)), format!("storage of {} elements: append #{} panicked: {}", T::NAME, count, p.msg), rp().set("element", T::NAME).set("append", count));
+                    return;
+                }
+            }
+        }
+        if special && count <= max_index + 1 {
+            // fetch_or_append around the boundary
+            let expect = T::first_equal(count, count);
+            let must_append = expect.is_none();
+            if must_append && count > max_index {
+                continue;
+            }
+            match catch(|| st.fetch_or_append(T::make(count))) {
+                Ok(t) => {
+                    let want = expect.unwrap_or(count);
+                    if t.index() as u64 != want {
+                        r.violation(format!("C19:{}:{}", stage, if must_append { "fetch-should-append" } else { "fetch-first-equal" }), format!("storage of {} {} elements: fetch_or_append returned token index {}, expected {}", count, T::NAME, t.index(), want), rp().set("element", T::NAME).set("count", count));
+                        return;
+                    }
+                    if must_append {
+                        kept.push((count, t));
+                        count += 1;
+                    }
+                    r.count("capacity_fetches", 1);
+                }
+                Err(p) => {
+                    r.violation(format!("C19:panic:{}", crate::util::panic_key(&p)), format!("storage of {} {} elements: fetch_or_append panicked: {}", count, T::NAME, p.msg), rp().set("element", T::NAME).set("count", count));
+                    return;
+                }
+            }
+        }
+    }
+    // every kept token still yields its value and the tokens are pairwise distinct
+    let mut seen = std::collections::HashSet::new();
+    for (i, t) in &kept {
+        if t.index() as u64 != *i || !seen.insert(t.index()) {
+            r.violation(format!("C19:{}:earlier-token-changed", stage), format!("storage of {} elements: the token of append #{} has index {} at the end", T::NAME, i, t.index()), rp().set("element", T::NAME));
+            return;
+        }
+        match catch(|| st[*t].same(*i)) {
+            Ok(true) => {}
+            other => {
+                r.violation(format!("C19:{}:lookup-returned", stage), format!("storage of {} elements holding {} values: lookup of the token of append #{} gives {:?}", T::NAME, count, i, other.map_err(|p| p.msg)), rp().set("element", T::NAME));
+                return;
+            }
+        }
+    }
+    r.count("capacity_appends", count);
+    r.count("capacity_tokens_rechecked", kept.len() as u64);
+    r.seen("capacity_storages", format!("{}:{} values", T::NAME, count));
+    r.nontrivial(format!("capacity:{}:{}", T::NAME, count));
+}
+
 pub fn run(cfg: &Cfg, rep: &mut Report) {
-    rep.rule = "histories of append / fetch_or_append over elements with scripted symmetric equality relations (class equality ignoring a unique serial; NaN-like elements equal to nothing; non-transitive 'near' equality; wildcards equal to everything) replayed against a Vec model; after every operation the returned token index, its lookup and the lookups of ALL earlier tokens are compared; exhaustive over all histories up to length 6 (quick: 4) of {append,fetch} x {3 classes, NaN-like, wildcard} under exact and under near equality, then random histories up to 200 operations. distinct_nontrivial = distinct histories (by length bucket and content hash)".into();
+    rep.rule = "histories of append / fetch_or_append over elements with scripted symmetric equality relations (class equality ignoring a unique serial; NaN-like elements equal to nothing; non-transitive 'near' equality; wildcards equal to everything) replayed against a Vec model; after every operation the returned token index, its lookup and the lookups of ALL earlier tokens are compared; exhaustive over all histories up to length 6 (quick: 4) of {append,fetch} x {3 classes, NaN-like, wildcard} under exact and under near equality, then random histories up to 200 operations, long histories (300..4100 stored values, sparse re-checks of earlier tokens) and capacity histories (storages of zero-sized and one-byte elements grown past 2^24 values, thorough: past 2^32 values, every append's index compared, fetch_or_append and token re-lookups around every power of two). distinct_nontrivial = distinct histories (by length bucket and content hash)".into();
     let miri = cfg.mode == "miri";
     // exhaustive small histories: alphabet of 10 symbols = {append, fetch} x {class0, class1, class2, nan, wildcard},
     // played twice: with exact class equality and with the non-transitive "near" equality
@@ -150,7 +399,7 @@ pub fn run(cfg: &Cfg, rep: &mut Report) {
             let s = rem % 10;
             rem /= 10;
             let op = if s & 1 == 0 { OpK::Append } else { OpK::Fetch };
-            let c = (s >> 1) as u8;
+            let c = (s >> 1) as u32;
             h.push(match c {
                 3 => (op, 0, Mode::Never),
                 4 => (op, 0, Mode::Wild),
@@ -167,6 +416,26 @@ pub fn run(cfg: &Cfg, rep: &mut Report) {
         }
         play(&h, r, &|| crate::util::replay_ref(cfg, "random", idx), "random");
     });
+    let n = if miri { 4 } else { cfg.n(3_000, 200_000) };
+    run_stage(cfg, rep, "long", n, |idx, rng, r| {
+        let h = gen_long(rng);
+        r.seen("long_history_lengths_by_256", format!("{:05}", h.len() / 256 * 256));
+        play_opt(&h, r, &|| crate::util::replay_ref(cfg, "long", idx), "long", true);
+    });
+    if !miri {
+        // capacity histories: quick up to just beyond 2^24 appends, thorough beyond 2^32 (zero-sized elements)
+        let small: u64 = (1 << 24) + 4096;
+        let big: u64 = if cfg.tier_thorough { (1u64 << 32) + 4096 } else { small };
+        run_stage(cfg, rep, "capacity", 4, |idx, _rng, r| {
+            let rp = || crate::util::replay_ref(cfg, "capacity", idx);
+            match idx {
+                0 => capacity::<()>(big, r, &rp),
+                1 => capacity::<ZNever>(big, r, &rp),
+                2 => capacity::<ZAlways>(big, r, &rp),
+                _ => capacity::<u8>(small, r, &rp),
+            }
+        });
+    }
     rep.exhaustive = false;
     rep.extra.push(("x_exhaustive_small_histories".into(), Json::obj().set("max_length", maxlen).set("histories", total * 2)));
 }
